@@ -10,7 +10,7 @@ TABLE = {
                             'composite); assumed with a bounded stand-in: the template call sites (getter list / tuple(block_vars) / '
                             'symbol-name tuple come from the same list) and that loop options carry the directives; proved since (event mode, contracts/'
                             'c04_converters.py): the if / while / for visitors hand the SAME block-variable list to the state functions, the '
-                            'nonlocal declarations and the symbol-name tuple, and the break / continue lowering (guard variable, guarded else, '
+                            'nonlocal declarations and the symbol-name tuple, and the break / continue / return lowering (guard variable, guarded else, '
                             'extra loop test, else clause visited outside the loop scope)'),
     'C04': dict(level='other', bounded=[('c04_scan.py', 'NoNative scan of to_code + operator invocation counts, constructs planted in every context')],
                 explanation='proved (event mode): PyToPy.transform_ast runs exactly the documented pass pipeline, in order, asserts / '
@@ -19,7 +19,7 @@ TABLE = {
                             'c04_converters.py): conditional expression -> ag__.if_exp, assert -> ag__.assert_stmt, unary / binary operators '
                             'with an overload, calls -> ag__.converted_call with the four exemptions, variable loads -> ag__.ld, list display / '
                             'append -> ag__.new_list / list_append, if / while / for -> ag__.if_stmt / while_stmt / for_stmt with the block '
-                            'variables, reserved names, empty-else padding, extra loop test and iterate expansion, break and continue lowering; '
+                            'variables, reserved names, empty-else padding, extra loop test and iterate expansion, break, continue and return lowering; '
                             'the template text, every replacement and their order are compared; templates.replace itself, generic_visit and '
                             'the remaining visitors (slices, directives, return lowering, Compare / BoolOp chains, visit_Continue) are '
                             'assumed with the bounded stand-in: AST scan of the generated code with the NoNative predicate and dynamic '
